@@ -716,6 +716,11 @@ func (s *Sim) opC17Relay() {
 			}
 			if !accepted {
 				sig = "rejected-payment"
+			} else if sig == "resolved-project" && a.used == b.used && a.block > epoch+s.K.Epochstorage.BlocksToSaveRaw(s.Ctx) {
+				// names one specific situation: the uncharged version lies further ahead of the relay's
+				// epoch than the blocks-to-save span (a pending next-epoch version, relay for the oldest epoch)
+				sig = "pending-version-beyond-relay-epoch-plus-blocks-to-save"
+				r.Probe("c17_pending_version_beyond_charge_range")
 			}
 			r.Check(a.used == want, "c17-project-used-cu", sig, "%s of %d CU (key %s, epoch %d, resolved project %s snapshot %d, accepted=%v): project %s as of block %d (snapshot %d) has UsedCu %d -> %d, expected %d [observed blocks %v]", kind, total, signer.Name, epoch, m.pname(resolved.Index), resolved.Snapshot, accepted, m.pname(id), a.block, a.snap, b.used, a.used, want, obsBlocks)
 		}
